@@ -41,6 +41,8 @@ def pool_trees():
                         ("Exponential", Y, 1), ("NthPower", s, 7)]),
         # a variable that occurs only linearly (its value never enters any partial), at p4 it is missing
         "e12": ("Add", [("Multiply", [("Constant", 2), X]), Y, ("Constant", 3)]),
+        # a Power with variable base and exponent below parents that evaluate it before differentiating it
+        "e13": ("Multiply", [("Constant", 2), ("Sine", ("Power", ("Add", [X, ("Constant", 3)]), Y))]),
         "e11": ("Multiply", [("NthRoot", ("Negation", t), 7), ("Logarithm", ("NthPower", Y, 2), 0.5), ("NthRoot", X, 9)]),
     }
 
